@@ -4,7 +4,7 @@ CONSTANTS
   AsCoded = FALSE
   MaxScalars = 2
   MaxArrays = 2
-  MaxOps = 12
+  MaxOps = 99
 VIEW View
 INVARIANT FaithfulInv
 INVARIANT TilesInv
